@@ -354,7 +354,8 @@ def run_property(prop, tier, only=None, seed=0, write_evidence=True, quiet=False
                rule="one evaluation = one symbolic path of a function under contract; distinct = distinct obligation id")
     ev = dict(property_id=prop, tier=tier, seed=seed, level=level, coverage=cov, assumptions=sorted(assumptions),
               wall_s=round(wall, 3), violations=len(violations))
-    if write_evidence and not only:
+    # runs against a scratch copy of the repository (GASOL_REPO: seeded / harmless changes) never touch the evidence of /repo
+    if write_evidence and not only and os.path.realpath(os.environ.get('GASOL_REPO', '/repo')) == '/repo':
         os.makedirs(os.path.join(HERE, 'evidence'), exist_ok=True)
         with open(os.path.join(HERE, 'evidence', prop + '.json'), 'w') as f:
             json.dump(ev, f, indent=1, default=str)
